@@ -326,6 +326,9 @@ def rule_R5(ctx, f):
     if not b:
         return
     ctx.saw(b)
+    from . import hist_conc as _hcc
+    from pvrules.rules import elem_src
+    b = _hcc.proto_body(f, b)      # `zip(..).map(|..| ..).collect()` written out as a loop
     sc = b.calls_to(["Bucket::set_cumulative_count", "set_cumulative_count"])
     su = b.calls_to(["Bucket::set_upper_bound", "set_upper_bound"])
     ok = len(sc) == 1 and len(su) == 1
@@ -334,6 +337,13 @@ def rule_R5(ctx, f):
         return
     ub = elem_of(peel(su[0].args[1]))
     okb = bool(ub) and peel(ub[0])[0] == "field" and peel(ub[0])[2] == "upper_bounds" and "enumerate" in ub[1] and ub[2] == ["1"] and not [a for a in ub[1] if a not in ("iter", "into_iter", "enumerate")]
+    lockstep = None
+    if not okb:
+        # the bound as one component of a lock-step walk: upper_bounds.iter().zip(cold.buckets.iter().zip(hot.buckets.iter()))
+        es = elem_src(peel(su[0].args[1]))
+        if es and not es[2] and peel(es[0])[0] == "field" and peel(es[0])[2] == "upper_bounds" and not [a for a in es[1] if a not in ("zip", "iter", "into_iter")]:
+            okb, lockstep = True, es[3]
+            ub = (es[0], es[1], es[2])
     ctx.ob(rid, "proto|bound-of-iteration", okb, "set_upper_bound must receive the bound yielded by the enumeration of all upper_bounds (found %s)" % show(su[0].args[1]), site=su[0].span)
     cum = peel(sc[0].args[1])
     okc = cum[0] == "var"
@@ -352,8 +362,12 @@ def rule_R5(ctx, f):
             if okc:
                 sw = peel(other[0], transparent=[])
                 idx = peel(sw[2][0], transparent=[])
-                # drained bucket index is the enumeration index of the same loop
-                okc = is_call(idx, "Index::index") and (lambda e2: bool(e2) and e2[2] == ["0"] and e2[0] == ub[0])(elem_of(peel(idx[2][1])))
+                # drained bucket index is the enumeration index of the same loop (or the cell of the same lock-step iteration step)
+                if lockstep is not None:
+                    es2 = elem_src(peel(sw[2][0]))
+                    okc = bool(es2) and es2[3] == lockstep and peel(es2[0])[0] == "field" and peel(es2[0])[2] == "buckets"
+                else:
+                    okc = is_call(idx, "Index::index") and (lambda e2: bool(e2) and e2[2] == ["0"] and e2[0] == ub[0])(elem_of(peel(idx[2][1])))
     ctx.ob(rid, "proto|running-sum-before-store", okc, "the cumulative count must be the running sum updated with bucket i's drained count before it is stored for bound i (found %s)" % show(sc[0].args[1]), site=sc[0].span)
     same = peel(sc[0].args[0]) == peel(su[0].args[0])
     pushes = [c for c in b.calls_to("Vec::push") if peel(c.args[1]) == peel(sc[0].args[0])]
